@@ -72,6 +72,14 @@ CHECKS = {
                      "(case-insensitively) and the profile lists intersect, otherwise failed, refusing sends and delivering nothing; when both "
                      "connect, RTP, RTCP and data sent in both directions arrive field-for-field unless altered in transit, and nothing altered "
                      "is delivered."),
+    "C03": dict(engine="pc_sim", design="10/C03", technique="deterministic simulation: pairs of real RTCPeerConnections over simulated ICE/network/signalling, configurations drawn from the product space; SDP judged by an independent line-regex reader; connectivity and data-channel round trips under virtual time",
+                text="Seeded exploration of configurations (offerer: 0-3 media items x kind x direction x addTrack / addTransceiver(kind) / "
+                     "addTransceiver(track), data channel before or after media, codec preference lists with/without RTX, bundle policy; "
+                     "answerer: pre-created items, data channel, preferences, bundle policy; 0-2 follow-up negotiations adding media or a data "
+                     "channel from either side): all four negotiation calls succeed (OperationError only when the harness's own codec "
+                     "intersection is empty), both ends stable, answer mirrors the offer (sections, mids, BUNDLE; codecs/payload types, RTX "
+                     "with its base, rtcp-fb, extmap ids all within the offer; definite DTLS role), current directions complementary, both "
+                     "sides connect and every negotiated data channel carries a message each way."),
 }
 
 NOT_APPLICABLE = [
@@ -83,6 +91,8 @@ NOT_APPLICABLE = [
 LEVELS = {"C05": "fault_enumeration", "C19": "fault_enumeration"}
 
 ENGINES = [
+    {"name": "pc_sim", "path": "simrtc/engines/pc_sim.py", "serves_properties": ["C03", "C14", "C19"],
+     "kind_free_text": "two real RTCPeerConnections (full stack) over SimIceConnection/SimNet with an in-simulation signalling channel; virtual time, seeded scheduler"},
     {"name": "media_sim", "path": "simrtc/engines/media_sim.py", "serves_properties": ["C11", "C04"],
      "kind_free_text": "real RTCRtpSender -> real RTCDtlsTransport pair (OpenSSL DTLS, libsrtp) over SimIceConnection/SimNet -> real RTCRtpReceiver, decoder seam tapped; virtual time"},
     {"name": "diff_sim", "path": "simrtc/engines/diff_sim.py", "serves_properties": ["C17"],
